@@ -1511,7 +1511,15 @@ impl CompileState<'_> {
                         scrutinee,
                         arms,
                     })),
-                    vtype: expr_type.assume("expression must have type")?,
+                    // `match` on an uninhabited scrutinee (e.g. `match todo() {}`) passes the
+                    // exhaustiveness check with no arms at all and so has no arm to take its
+                    // type from.
+                    vtype: expr_type.ok_or_else(|| {
+                        self.err(UnknownError(
+                            "match expression must have at least one arm".to_owned(),
+                            Some(span),
+                        ))
+                    })?,
                     span,
                 })
             }
